@@ -25,6 +25,10 @@ void name_object(const void *addr, const std::string &name);
 /// reset allocation ordinals and names (per scenario)
 void reset_names();
 int current_tid();
+/// leave / re-enter the scheduler's view: while quiet, atomic operations of the calling thread are neither scheduling
+/// points nor logged (used for objects that are not part of the scenario, e.g. a second manager instance)
+int quiet_enter();
+void quiet_leave(int saved);
 /// queue-node naming: objects registered after the first `base` ones are N1, N2, ...; when ptr_mask != 0
 /// the pointer field of every logged value is replaced by the node number
 void set_node_naming(int base, uint64_t ptr_mask);
